@@ -184,6 +184,8 @@ PROPS["C04"] = {
     "level_note": "Trusted: the reference lifetime model (an upper bound: sdns may expire earlier). Denial-proof and subtree-cut lifetimes are covered by C02's cache unit; DNS64 composition lifetimes are not exercised here.",
     "rule": ("evaluations = histories. Non-trivial = a cached record judged in the second half of its life or within 3 s of its end, an alias reply composed from cache, or a late refresh ordered after newer data; distinct = hash(classes, step shapes)."),
     "units": {
+        "world": {"pkg": "./server", "run": "^TestVerifC04World$", "tiers": {"quick": T(1200, 8, timeout=900), "thorough": T(40000, 12, timeout=3400)},
+                  "floors": {"C04.world": {"served-from-cache": 0.3, "composed-negative-from-cache": 0.15, "rfc8198-synthesis": 0.08, "ecs-question": 0.1}}},
         "lifetime": {"pkg": "./server", "run": "^TestVerifC04Lifetime$",
                      "tiers": {"quick": T(2500, 8, timeout=600), "thorough": T(80000, 12, timeout=3400)},
                      "floors": {"C04.lifetime": {"late-in-life": 0.15, "composed-from-cache": 0.05, "late-prefetch-judged": 0.05}}},
@@ -242,6 +244,7 @@ PROPS["C06"] = {
 }
 
 PROPS["C19"] = {
+    "share": ["C04"],
     "level": "exploration",
     "technique": "property testing against reference prefix arithmetic (net/netip) for the ECS policy, plus audience-model history testing on the real default chain: a recording upstream shows exactly which options leave sdns and stamps answers so every cached reply can be attributed to the audience it was fetched for",
     "level_text": ("Unit 'policy': generated policies (ceilings, floors, networks, invalid values), client addresses and client-sent subnet options (all families, masks 0-128 and beyond, host bits set) are run through internal/ecs; the forwarded option must equal the net/netip reference (client-stated or transport-derived source, truncated to the ceiling, host bits zeroed) or be absent, and the stored scope must equal min(authority scope, source bits, floor) with family caps. "
@@ -250,6 +253,7 @@ PROPS["C19"] = {
     "level_note": "Trusted: net/netip prefix arithmetic and the reference reading of the policy (docs in internal/ecs, config comments). The authority's scope is scripted per name; answers synthesised from RFC 8198 denial proofs are outside this harness's upstream stub (it cannot mark validated denials), so the 'no shared denial state for ECS queries' clause is only exercised through C02's cache unit.",
     "rule": ("evaluations = policy cases / histories. Non-trivial = forwarding was permitted for at least one step or a scoped entry was hit from cache; distinct = hash(policy, step shapes)."),
     "units": {
+        "denial-state": {"pkg": "./server", "run": "^TestVerifC04World$", "tiers": {"quick": T(1200, 8, timeout=900), "thorough": T(40000, 12, timeout=3400)}},
         "policy": {"pkg": "./internal/ecs", "run": "^TestVerifC19Policy$",
                    "tiers": {"quick": T(30000, 2, timeout=300), "thorough": T(800000, 4, timeout=3000)}},
         "audience": {"pkg": "./server", "run": "^TestVerifC19Audience$",
@@ -259,6 +263,7 @@ PROPS["C19"] = {
 }
 
 PROPS["C02"] = {
+    "share": ["C04"],
     "level": "exploration",
     "technique": "property testing of every denial verifier and RFC 8198 evaluator against zone ground truth: generated signed zones, arbitrary subsets/orders/pollutions of their genuine NSEC/NSEC3 chains, generated questions; accept => truth agrees; plus RFC 4034 canonical-order and interval references",
     "level_text": ("A zone model (owners with escaped/binary labels, wildcards, empty non-terminals, secure and insecure delegations with glue, DNAMEs, CNAMEs; NSEC3 salt/iterations/opt-out) renders the genuine NSEC and NSEC3 chains and answers 'what is true for (name, type)' straight from RFC 1034/4592/6672. "
@@ -268,6 +273,7 @@ PROPS["C02"] = {
     "level_note": "Trusted: the zone model (vfmodel) as ground truth and miekg/dns NSEC3 hashing. Records are unsigned at this level - the signature/signer binding that precedes the verifiers is C01/C14 territory, which is why in-zone forged records are not generated. The resolver-level clauses (RFC 8020 stop, SERVFAIL vs fabricated denial on incomplete proofs) and admission/expiry orders of the denial-proof and cut caches are not decided by these units. NSEC3 hash collisions are not generated.",
     "rule": ("evaluations = (zone, record set, question) cases, each put to every verifier. Non-trivial = some verifier accepted, or the record set was a strict subset or polluted; distinct = hash(truth class, qtype, chain size, records given, accepted, polluted/mixed, parameters)."),
     "units": {
+        "synthesis": {"pkg": "./server", "run": "^TestVerifC04World$", "tiers": {"quick": T(1200, 8, timeout=900), "thorough": T(40000, 12, timeout=3400)}},
         "nsec": {"pkg": "./middleware/resolver/dnssec", "run": "^TestVerifC02NSEC$",
                  "tiers": {"quick": T(15000, 6, timeout=600), "thorough": T(600000, 10, timeout=3400)},
                  "floors": {"C02.nsec": {"truth:ent": 0.02, "truth:referral": 0.02, "truth:dname": 0.005, "polluted": 0.1, "accepted": 0.2, "partial-chain": 0.3}}},
